@@ -39,6 +39,8 @@ structure RemD where
   /-- 0 = the candidate's `Address()` is the canonical literal of its address; else the digest's `~n` mark
   (IPv4-mapped / expanded literal).  The transport address `(net, addr)` is the same either way. -/
   form : Nat := 0
+  /-- tcptype of the candidate: 0 none, 1 active, 2 passive, 3 simultaneous-open (the digest's `^a` `^p` `^s`) -/
+  tt : Nat := 0
   deriving Repr, Inhabited, BEq
 
 structure LocD where
@@ -47,6 +49,7 @@ structure LocD where
   addr : Nat
   prio : Nat
   ls : String
+  tt : Nat := 0
   deriving Repr, Inhabited, BEq
 
 structure AgD where
@@ -136,34 +139,35 @@ def parsePair (s : String) : Option PairD :=
     | _, _, _, _, _, _, _, _ => none
   | _ => none
 
-/-- `<ty>@<net>.<addr>[~<form>]` -/
-def candHeadF? (s : String) : Option (Nat × Nat × Nat × Nat) :=
+/-- tcptype mark: `a` active, `p` passive, `s` simultaneous-open → 1, 2, 3 -/
+def ttOf (s : String) : Option Nat :=
+  if s == "a" then some 1 else if s == "p" then some 2 else if s == "s" then some 3 else none
+
+/-- `<ty>@<net>.<addr>[~<form>][^<tcptype>]` → (type, net, addr, form, tcptype) -/
+def candHeadFT? (s : String) : Option (Nat × Nat × Nat × Nat × Nat) :=
   match s.splitOn "@" with
   | [ty, na] =>
     match na.splitOn "." with
-    | [n, af] =>
+    | [n, aft] =>
+      let (af, t) : String × Option Nat := match aft.splitOn "^" with
+        | [af, t] => (af, ttOf t)
+        | _ => (aft, some 0)
       let (a, f) : String × Option Nat := match af.splitOn "~" with
         | [a, f] => (a, f.toNat?)
         | _ => (af, some 0)
-      match ty.toNat?, n.toNat?, a.toNat?, f with
-      | some ty, some n, some a, some f => some (ty, n, a, f)
-      | _, _, _, _ => none
+      match ty.toNat?, n.toNat?, a.toNat?, f, t with
+      | some ty, some n, some a, some f, some t => some (ty, n, a, f, t)
+      | _, _, _, _, _ => none
     | _ => none
-  | _ => none
-
-/-- `<ty>@<net>.<addr>` -/
-def candHead? (s : String) : Option (Nat × Nat × Nat) :=
-  match candHeadF? s with
-  | some (ty, n, a, 0) => some (ty, n, a)
   | _ => none
 
 def parseRem (s : String) : Option RemD :=
   match s.splitOn ":" with
   | [h, p, r, lr] =>
-    match candHeadF? h, (p.drop 1).toString.toNat? with
-    | some (ty, n, a, f), some p =>
+    match candHeadFT? h, (p.drop 1).toString.toNat? with
+    | some (ty, n, a, f, t), some p =>
       if r.startsWith "r" && lr.startsWith "lr" then
-        some { ty := ty, net := n, addr := a, prio := p, rel := (r.drop 1).toString, lr := (lr.drop 2).toString, form := f }
+        some { ty := ty, net := n, addr := a, prio := p, rel := (r.drop 1).toString, lr := (lr.drop 2).toString, form := f, tt := t }
       else none
     | _, _ => none
   | _ => none
@@ -171,9 +175,9 @@ def parseRem (s : String) : Option RemD :=
 def parseLoc (s : String) : Option LocD :=
   match s.splitOn ":" with
   | [h, p, ls] =>
-    match candHead? h, (p.drop 1).toString.toNat? with
-    | some (ty, n, a), some p =>
-      if ls.startsWith "ls" then some { ty := ty, net := n, addr := a, prio := p, ls := (ls.drop 2).toString } else none
+    match candHeadFT? h, (p.drop 1).toString.toNat? with
+    | some (ty, n, a, 0, t), some p =>
+      if ls.startsWith "ls" then some { ty := ty, net := n, addr := a, prio := p, ls := (ls.drop 2).toString, tt := t } else none
     | _, _ => none
   | _ => none
 
